@@ -149,6 +149,17 @@ def main(c):
             for fn in sorted(os.listdir(kd)):
                 if fn.endswith('.parquet'):
                     jobs.append((os.path.join(kd, fn), os.path.join(kd, fn[:-8] + '.tdmp')))
+        # the pure-Python reader decodes about 1-2 MB/s per core: files above 4 MiB are validated up to a budget of 3 GiB per run
+        # (smallest first within that class, so that every kind of large table is seen), the rest are counted as not validated
+        small = [j for j in jobs if os.path.getsize(j[0]) <= (4 << 20)]
+        large = sorted((j for j in jobs if os.path.getsize(j[0]) > (4 << 20)), key=lambda j: os.path.getsize(j[0]))
+        budget = 3 << 30; taken = []
+        for j in large:
+            sz = os.path.getsize(j[0])
+            if sz <= budget:
+                taken.append(j); budget -= sz
+        c.count('large_files_validated', len(taken)); c.count('large_files_beyond_the_validation_budget', len(large) - len(taken))
+        jobs = small + taken
         with ProcessPoolExecutor(vlib.NCPU) as ex:
             results = list(ex.map(validate_one, jobs, chunksize=8))
         for r in results:
